@@ -151,7 +151,8 @@ Section Partition.
 
   (* what the pandas metadata records for a partition column *)
   Inductive kind :=
-  | KInt (signed : bool) (bits : N) | KBool | KStr | KFloat (single : bool) | KTime (ns : bool) | KTimeTz | KCat.
+  | KInt (signed : bool) (bits : N) | KBool | KStr | KFloat (single : bool) | KTime (ns : bool) | KTimeTz
+  | KCat (labels : option kind).   (* categorical; the kind of the labels when the writer recorded it (key 'labels' of the column's metadata) *)
 
   Fixpoint show (hive : bool) (v : value) : str :=
     match v with
@@ -187,9 +188,9 @@ Section Partition.
 
   (* util.val_from_meta.  int(x) failing is a ValueError (re-raised: the numpy type is not
      datetime64[ns]); a value outside the integer dtype is numpy's OverflowError.               *)
-  Definition parse_with_meta (k : kind) (x : str) : res value :=
+  Definition parse_base (k : kind) (x : str) : res value :=
     match k with
-    | KCat => Ok (VStr x)
+    | KCat _ => Ok (VStr x)
     | KBool => Ok (VBool (mem_str x [s_ "true"; s_ "True"; s_ "t"; s_ "T"; s_ "1"]))
     | KInt sg bits =>
       match parse_int x with
@@ -204,6 +205,13 @@ Section Partition.
       end
     | KTimeTz => res_of_opt (option_map VTime (parse_time_np true x))
     | KStr => Ok (VStr x)
+    end.
+  (* a categorical whose label type was recorded converts the text with that type (one level: the labels of
+     a categorical are never categorical themselves), otherwise the labels stay text               *)
+  Definition parse_with_meta (k : kind) (x : str) : res value :=
+    match k with
+    | KCat (Some lk) => parse_base lk x
+    | _ => parse_base k x
     end.
 
   (* util._val_to_num: total (every failure falls through to the next guess) *)
